@@ -44,6 +44,9 @@ class EmptyStrError(Exception):
         return ""
 
 
+_SHARED = {"err": None}
+
+
 def make_exc(kind_index, msg, path, sync=False):
     kind = EXC_KINDS[kind_index % len(EXC_KINDS)]
     if kind == "StopIteration" and not sync:
@@ -51,6 +54,9 @@ def make_exc(kind_index, msg, path, sync=False):
         kind = "LookupError"
     if kind == "EmptyStr":
         return EmptyStrError(msg)
+    if kind == "SharedGraphQLError":
+        # the same instance wherever it is planned, across positions and requests of the unit
+        return _SHARED["err"] if msg is None else GraphQLError(msg)
     if kind == "GraphQLError":
         return GraphQLError(msg)
     if kind == "GraphQLErrorOwnPath":
@@ -467,6 +473,7 @@ def field_resolver(source, info, **args):
 
 def attach(schema, type_mode):
     """Attach resolvers / type resolvers by attribute assignment (fresh schema per run)."""
+    _SHARED["err"] = GraphQLError("shared failure")  # one instance per unit
     for tname in ("Query", "Mutation", "Subscription") + OBJECTS:
         t = schema.type_map[tname]
         for f in t.fields.values():
